@@ -36,7 +36,10 @@ CONSTANTS Requests,      \* sequence of connection requests [seat, team, version
           SyncImpl,      \* "barrier" | "flags"
           CloseOnAbort,  \* TRUE: log closed on the exception path
           Fault,         \* [board, phase, index] of an offending message, or NoFault
-          Interrupts     \* TRUE: an operator interrupt may hit main inside a board
+          Interrupts,    \* TRUE: an operator interrupt may hit main inside a board
+          JoinImpl       \* "wait": run() joins every player thread (the code);
+                         \* "bounded": join(timeout=...) - may give up at once
+                         \* (regression configuration, seeded changes C10-r3m2 / C11-r3m2)
 
 NoFault == [board |-> 0, phase |-> "none", index |-> 0]
 \* a free seat of the table (the code's None); "" is a team name like any other
@@ -343,7 +346,7 @@ IsFault(b, phase, idx) == Fault.board = b /\ Fault.phase = phase /\ Fault.index 
     toSeat := PutAll(toSeat, MEnd);
    m_join:
     while (j <= Len(threads)) {
-      await finished[threads[j]];
+      await finished[threads[j]] \/ JoinImpl = "bounded";
       j := j + 1;
     };
     goto m_done;
@@ -488,7 +491,7 @@ IsFault(b, phase, idx) == Fault.board = b /\ Fault.phase = phase /\ Fault.index 
 }
 ***************************************************************************)
 \* BEGIN TRANSLATION
-\* Process variable msg of process Main at line 231 col 78 changed to msg_
+\* Process variable msg of process Main at line 234 col 78 changed to msg_
 CONSTANT defaultInitValue
 VARIABLES pc, table, backlog, ev, bar, evSync, evSeat, toSeat, fromSeat, sent, 
           closed, started, finished, threads, log, logState, aborted, 
@@ -1042,7 +1045,7 @@ m_close == /\ pc[0] = "m_close"
 
 m_join == /\ pc[0] = "m_join"
           /\ IF j <= Len(threads)
-                THEN /\ finished[threads[j]]
+                THEN /\ finished[threads[j]] \/ JoinImpl = "bounded"
                      /\ j' = j + 1
                      /\ pc' = [pc EXCEPT ![0] = "m_join"]
                 ELSE /\ pc' = [pc EXCEPT ![0] = "m_done"]
@@ -1481,6 +1484,12 @@ LogCorrect == (pc[0] = "Done" /\ ~aborted) => (logState = "closed" /\ Len(log) =
 \* C10: every connection is sent exactly its stream
 SentPrefix == (~aborted) => \A k \in Reqs : IsPrefixSeq(sent[k], ExpectedStreams[k])
 SentComplete == (AllDone /\ ~aborted) => \A k \in Reqs : sent[k] = ExpectedStreams[k]
+
+\* C09 / C10 / C11: when Server.run returns (normally) no player thread is
+\* left behind - the command line ends the process there, and a thread still
+\* alive would be killed before it has told its seat everything
+RunReturnsAfterThreads ==
+  (pc[0] = "Done" /\ ~aborted) => \A k \in Reqs : started[k] => finished[k]
 
 \* C13: once main has stopped on an abort the log is closed and holds exactly
 \* the boards finished before
